@@ -78,3 +78,37 @@ def wit_d2():
 
 SIGNATURES["D2-C02"] = sig_d2
 WITNESSES["D2-C02"] = wit_d2
+
+def sig_d7(info, t):
+    b = _base(t)
+    if not b or (b.get("np") or [None])[0] != "tree":
+        return False
+    lp = b.get("lp", [None])
+    return lp[0] == "thompson" or (lp[0] == "greedy" and lp[1] > 0)
+
+def _njobs_differ(lp, npol, X, n=8, backend="threading"):
+    import numpy as np
+    from mabwiser.mab import MAB
+    rng = np.random.default_rng(0)
+    C = rng.integers(0, 4, size=(n, 2)).astype(float)
+    ds = [1, 2] * (n // 2); rs = [float(i % 2) for i in range(n)]
+    a = MAB([1, 2], lp, npol, seed=11, n_jobs=1); a.fit(ds, rs, C)
+    b = MAB([1, 2], lp, npol, seed=11, n_jobs=2, backend=backend); b.fit(ds, rs, C)
+    return a.predict_expectations(X) != b.predict_expectations(X)
+
+def wit_d7():
+    from mabwiser.mab import LearningPolicy, NeighborhoodPolicy
+    return _njobs_differ(LearningPolicy.ThompsonSampling(), NeighborhoodPolicy.TreeBandit(), [[0.0, 1.0], [1.0, 2.0], [3.0, 0.0], [2.0, 2.0]], backend=None)
+
+def sig_d8_c05(info, t):
+    b = _base(t)
+    return bool(b) and b.get("lp", [None])[0] == "lints" and (b.get("np") or [None])[0] not in (None, "none")
+
+def wit_d8_c05():
+    from mabwiser.mab import LearningPolicy, NeighborhoodPolicy
+    return _njobs_differ(LearningPolicy.LinTS(alpha=1.0), NeighborhoodPolicy.KNearest(k=3), [[0.0, 1.0], [1.0, 2.0], [3.0, 0.0], [2.0, 2.0]])
+
+SIGNATURES["D7-C05"] = sig_d7
+WITNESSES["D7-C05"] = wit_d7
+SIGNATURES["D8-C05"] = sig_d8_c05
+WITNESSES["D8-C05"] = wit_d8_c05
